@@ -168,7 +168,7 @@ CHECKS["C05"]["text"] += (" Value CARRIERS: 12 compound constructs whose tail is
 CHECKS["C05"]["note"] += " Further unrepaired defects delimited by C05-F2..F4 (arms must have exactly the expected type; arm of a handle around a definition unchecked; same binder in sibling handles)."
 CHECKS["C06"]["text"] += (" Every case is ALSO run behind an independent, legal 'noise' prefix at the start of the file (a None assigned inside a branch; thorough: also same-named locals of different type in sibling branches, and a handle + match with binders) - "
                           "the verdict must not depend on it; and the constructor machine's bodies whose only fault is a non-nullable field left unassigned on some path (must be rejected).")
-CHECKS["C06"]["note"] = "Unrepaired checker defects are delimited by the open C06 entries of known_findings.json (zones by payload kind and producer); three former ones were closed by fix: commits of the third session."
+CHECKS["C06"]["note"] = "All six former C06 findings were closed by fix: commits (the last ones in the third session): the check has no open finding and reports 0 failures in both tiers."
 CHECKS["C01"]["text"] += (" Plus every LEGAL sequence of the scope machine (mv/scopeseq.py, see C09) with the lines the reference scope model says it prints (values of v under block scoping).")
 CHECKS["C01"]["note"] += " C01-F4 (block scoping emitted as function scoping) is recognised on scope-machine programs only when the output equals what a function-scoped model of the same statements prints."
 CHECKS["C04"]["text"] += (" Third session: the scoping bases (family S: a definition local to every block kind - then, else, one-sided if, for, while, match arm, handle arm - followed by uses) and the edit 'rename a use to EVERY name bound anywhere in the program' "
